@@ -66,6 +66,25 @@ def gen_heap_consts():
     gt = strip_comments(rd("bytecode/src/heap/gc.rs"))
     if not re.search(r"self\.next_gc\s*=\s*\(self\.bytes_allocated \* Self::GC_GROWTH_FACTOR\)\s*\.max\(Self::INITIAL_GC_THRESHOLD\)", " ".join(gt.split()).replace(") .max", ").max")):
         raise ExtractError("Heap::sweep: next_gc = max(bytes * GC_GROWTH_FACTOR, INITIAL_GC_THRESHOLD) not found")
+    # byte buffers (std.bytes): does every native that builds one consult the heap limit and charge it first?
+    bt = strip_comments(rd("runtime/src/stdlib/bytes.rs"))
+    def _native(name):
+        fm = re.search(r"fn %s\b.*?\n\}" % name, bt, flags=re.S)
+        if not fm:
+            raise ExtractError(f"{name} not found in runtime/src/stdlib/bytes.rs")
+        return fm.group(0)
+    charged = []
+    for name, build in (("native_alloc", "vec![0u8;"), ("native_clone", ".data.clone()"), ("native_from_string", ".to_vec()"), ("native_resize", ".data.resize(")):
+        t = _native(name)
+        pc, pb = t.find("charge_byte_buffer("), t.find(build)
+        if pb < 0:
+            raise ExtractError(f"{name}: `{build}` not found (the native changed shape)")
+        charged.append(0 <= pc < pb)
+    fr = _native("native_free")
+    charged.append("release_byte_buffer(" in fr or not any(charged))
+    if any(charged[:4]) and not all(charged):
+        raise ExtractError("std.bytes: some natives charge their buffer to the heap limit and some do not: " + str(charged))
+    bytes_charged = all(charged[:4])
     import vlib
     ok, paths, log = vlib.harness_build(["hx_heaplimit"])
     if not ok:
@@ -94,7 +113,9 @@ def gen_heap_consts():
            f"Definition VEC_GROWTH_FACTOR : N := {int(mg.group(1))}%N.\n",
            f"Definition VEC_MIN_CAP : N := {int(mg.group(2))}%N.\n",
            "(* Heap::sweep: next_gc = max (factor * bytes) INITIAL_GC_THRESHOLD *)\n",
-           f"Definition GC_GROWTH_FACTOR : N := {gcf['GC_GROWTH_FACTOR'][0]}%N.\n"]
+           f"Definition GC_GROWTH_FACTOR : N := {gcf['GC_GROWTH_FACTOR'][0]}%N.\n",
+           "(* std.bytes: alloc / clone / from_string / resize call VM::charge_byte_buffer (limit check + charge) before they build the buffer, free releases *)\n",
+           f"Definition BYTES_CHARGED : bool := {'true' if bytes_charged else 'false'}.\n"]
     return write_if_changed("HeapConsts.v", "".join(out))
 
 
